@@ -454,7 +454,7 @@ pub fn prop() -> Prop<FaultCase> {
             "three quarters of the workloads use thresholds that make every non-empty file eligible, the rest arbitrary thresholds",
         ],
         needs_shim: true,
-        budget: |t| t.pick(1920, 24000),
+        budget: |t| t.pick(3200, 24000),
         shards: |_| 16,
         strategy,
         exec,
